@@ -26,6 +26,7 @@ K_RESULT = "kf_c15_result_fields"
 K_CHANGESET = "kf_c15_changeset"
 K_DESC = "kf_c15_change_description"
 K_LINE = "kf_c15_line_outside_file"
+K_LINE_MANIFEST = "kf_c15_manifest_line_outside_"      # + manifest file name (requirements_txt, setup_cfg, …)
 K_OVERLAP = "kf_c15_failed_and_changed"
 K_OVERLAP_MANIFEST = "kf_c15_manifest_failed_and_changed"
 K_SAST = "kf_c15_sast_metadata"
@@ -67,6 +68,21 @@ def registry_info():
 def count_lines(data: bytes) -> int:
     text = data.decode("utf-8", errors="replace")
     return len(re.split(r"\r\n|\r|\n", text))
+
+
+def exact_lines(data: bytes) -> int:
+    """Number of lines of a text: pieces between line terminators, an empty piece after the final terminator not counted."""
+    parts = re.split(r"\r\n|\r|\n", data.decode("utf-8", errors="replace"))
+    if parts and parts[-1] == "":
+        parts.pop()
+    return len(parts)
+
+
+def diff_delta(diff: str) -> int:
+    """lines added minus lines removed by a unified diff"""
+    add = sum(1 for l in diff.splitlines() if l.startswith("+") and not l.startswith("+++"))
+    rem = sum(1 for l in diff.splitlines() if l.startswith("-") and not l.startswith("---"))
+    return add - rem
 
 
 def _rel_failed(f: str, root: Path, cwd: Path | None) -> str:
@@ -127,6 +143,23 @@ def check_report(report: dict, project_root, executed_ids, *, before: dict | Non
             if before is not None and path in before:
                 before_n = count_lines(before[path] if isinstance(before[path], bytes) else str(before[path]).encode())
             bound = max([n for n in (after_n, before_n) if n is not None], default=None)
+            line_cls = K_LINE
+            # A manifest changeset comes from the dependency manager: its changes name lines ADDED to the manifest, so they
+            # must be lines of the manifest as rewritten: the file after the run, or (file left alone: --dry-run) the
+            # original plus what the diff adds.  Exact count, no slack.
+            if Path(path).name in MANIFESTS and any(isinstance(ch, dict) and ch.get("packageActions") for ch in changes):
+                bdata = None
+                if before is not None and path in before:
+                    bdata = before[path] if isinstance(before[path], bytes) else str(before[path]).encode()
+                adata = (root / path).read_bytes() if (root is not None and check_tree and (root / path).is_file()) else None
+                new_n = None
+                if adata is not None and (bdata is None or adata != bdata):
+                    new_n = exact_lines(adata)
+                elif bdata is not None:
+                    new_n = exact_lines(bdata) + diff_delta(cs.get("diff") or "")
+                if new_n is not None:
+                    bound = new_n
+                    line_cls = K_LINE_MANIFEST + re.sub(r"\W", "_", Path(path).name)
             for ch in changes:
                 if not isinstance(ch, dict):
                     continue
@@ -136,7 +169,7 @@ def check_report(report: dict, project_root, executed_ids, *, before: dict | Non
                 if not isinstance(ln, int) or isinstance(ln, bool) or ln < 1:
                     problems.append(f"{K_CHANGESET}: {where}: lineNumber {ln!r} is not >= 1")
                 elif bound is not None and ln > bound:
-                    problems.append(f"{K_LINE}: {where}: lineNumber {ln} but the file has {bound} lines")
+                    problems.append(f"{line_cls}: {where}: lineNumber {ln} but the file has {bound} lines")
                 tool, rules = info.get(cid, (None, None))
                 for fd in ch.get("findings") or []:
                     if not isinstance(fd, dict):
